@@ -153,6 +153,43 @@ func genC13Writers() {
 			}
 		}
 		facts["c13_rdb_filter_plain"] = pconds
+		// dimension audit (session 5): process-global and long-lived state reached from C13's code - every package-level
+		// `var` of the files below and the fields of the output filter (a scratch buffer added to the filter and handed out
+		// to the bisync parser was the round-8 seeded mutation): a new one changes this fact
+		{
+			pv := map[string][]string{}
+			for _, rel := range []string{"syncer/bisync.go", "syncer/bisync_rdb.go", "pkg/redis/checkpoint/bisync.go", "pkg/filter/filter.go"} {
+				_, pf := parseFile(rel)
+				names := []string{}
+				for _, d := range pf.Decls {
+					gd, ok := d.(*ast.GenDecl)
+					if !ok {
+						continue
+					}
+					for _, sp := range gd.Specs {
+						switch x := sp.(type) {
+						case *ast.ValueSpec:
+							if gd.Tok == token.VAR {
+								for _, n := range x.Names {
+									names = append(names, "var "+n.Name)
+								}
+							}
+						case *ast.TypeSpec:
+							if st, ok := x.Type.(*ast.StructType); ok && x.Name.Name == "RedisKeyFilter" {
+								for _, fl := range st.Fields.List {
+									for _, n := range fl.Names {
+										names = append(names, "field RedisKeyFilter."+n.Name)
+									}
+								}
+							}
+						}
+					}
+				}
+				sort.Strings(names)
+				pv[rel] = names
+			}
+			facts["c13_package_state"] = pv
+		}
 		facts["c13_rdb_filter"] = map[string]interface{}{
 			"bisyncRdbTargetKey":      c18BodyFact(rfset, rf, "bisyncRdbTargetKey"),
 			"bisyncRdbTargetReserved": c18BodyFact(rfset, rf, "bisyncRdbTargetReserved"),
